@@ -6,6 +6,12 @@ def part(name, pkg, test, execname, quick, thorough, inproc=False):
 PROPS = {
     "C01": dict(
         level="exploration",
+        text="Exploration by generated search on real in-process meshes: topologies, costs (default and per-node override), event histories "
+             "(link up/down, silent failure, node stop/restart) and per-link delay schedules are drawn; after the last event every live node's "
+             "routing table, next hops, path costs and next-hop walks are compared with an independent Floyd-Warshall oracle on the true live "
+             "graph, and must still agree two periods later. Finds counterexamples, proves nothing.",
+        note="Trusted: the in-memory Backend/BackendSession implementation of the harness (ordered per direction), the Floyd-Warshall oracle. "
+             "Goroutine interleavings inside a node are sampled by the Go scheduler, not enumerated; 'eventually' is a stated deadline.",
         technique="property-based testing (rapid): generated topologies + fault/event histories on real in-process meshes, judged by a Floyd-Warshall oracle",
         assumptions=["links deliver each direction in order (as stream backends do)", "a node is restarted >= 1.2 s after it stopped (epoch granularity)",
                      "goroutine interleavings inside a node are sampled, not enumerated", "convergence deadline 13 s (+ idle limit + 12 s after a silent failure)"],
@@ -17,6 +23,11 @@ PROPS = {
     ),
     "C06": dict(
         level="exploration",
+        text="Model-based exploration: one real node between scripted peers receives generated delivery histories (fresh, stale, equal, replayed, "
+             "own-origin and suspected-duplicate updates in any order on any link); a reference model built from the statement classifies each delivery and "
+             "the node's KnownConnectionCosts snapshot before/after plus every relay seen by every peer are compared with it. Finds counterexamples, proves nothing.",
+        note="Trusted: the reference model (newest accepted (epoch,seq) per origin + seen IDs), the scripted peer's wire encoding. The relay interleavings of the "
+             "node's independent writer goroutines are sampled.",
         technique="model-based property testing (rapid): delivery histories to one real node between scripted peers, reference model of accepted (epoch,seq)/seen IDs, snapshot-differential oracle",
         assumptions=["replays are verbatim copies of an earlier update (same UpdateID and content)", "periodic floods switched off (route period 1 h) so every relay seen is caused by a delivery",
                      "the suspected-duplicate notice re-bases the origin's epoch as the protocol defines (modelled)"],
@@ -28,6 +39,12 @@ PROPS = {
     ),
     "C12": dict(
         level="exploration",
+        text="Exploration by generated search: rule lists as YAML delivers them (every key/value type, random key case, literal, "
+             "regex-grammar and malformed patterns) and packets over a colliding name alphabet are judged by an independent "
+             "first-match reference interpreter; refusal of uninterpretable rule sets is checked in both directions. Finds "
+             "counterexamples, proves nothing.",
+        note="Trusted: Go's regexp for the meaning of a single pattern; the harness' reference interpreter. Placement (origin/transit/"
+             "destination) is covered by the mesh part when present.",
         technique="property-based testing (rapid): generated rule lists x packets against a reference first-match interpreter",
         assumptions=["regexp semantics of Go's regexp package are shared by reference and implementation; only the anchoring/"
                      "grouping and the parse/refuse decision are independent",
